@@ -48,7 +48,8 @@ Definition fw_step (k : tkind) (f : fw) : option fw :=
       Some (mkFw true (f_abort f) (f_expiring f) (f_expire_ok f) (f_sleep f) false false (f_result f))
   | TExpireMark =>
       (* the scan: a due aio is unlinked from the expire list and held *)
-      if f_on_eq f then Some (mkFw (f_stop f) (f_abort f) true (f_expire_ok f) (f_sleep f) (f_cancel f) false (f_result f))
+      if f_on_eq f && negb (f_expiring f)
+      then Some (mkFw (f_stop f) (f_abort f) true (f_expire_ok f) (f_sleep f) (f_cancel f) false (f_result f))
       else None
   | TExpireSkip =>
       (* its turn in the batch: no longer due (repaired loop) *)
@@ -136,7 +137,7 @@ Proof. cbn [astep fw_step]. destruct (outstanding s); [discriminate|]. intros H;
 Lemma astep_fw_expire_mark s now s' : astep fixed s (LExpire now) = Some s' ->
   fw_step TExpireMark (fw_of s) = Some (fw_of s').
 Proof.
-  intros H. cbn [astep] in H. cbn [fw_step]. simp_f. destruct (a_on_eq s); [|discriminate].
+  intros H. cbn [astep] in H. cbn [fw_step]. simp_f. destruct (a_on_eq s && negb (a_expiring s)); [|discriminate].
   destruct (negb match a_expire s with Some e => (e <? now)%N | None => false end); [discriminate|].
   inversion H; subst; clear H. unfold spawn. reflexivity.
 Qed.
